@@ -2182,7 +2182,9 @@ def _config_str(
   with _parse_scope(import_manager=import_manager):
     macros = {}
     for (scope, selector), config in configuration_object.items():
-      if _REGISTRY[selector].wrapped == macro:  # pylint: disable=comparison-with-callable
+      if (_REGISTRY[selector].wrapped == macro and  # pylint: disable=comparison-with-callable
+          _is_literally_representable(config.get('value'))):
+        # As for parameters, a value without a literal form is omitted.
         macros[scope, selector] = config
     if macros:
       formatted_statements.append('# Macros:')
